@@ -202,7 +202,11 @@ impl Monitor for C08 {
                     v
                 }
             };
-            let (a, b) = (real(&mut rng), real(&mut rng));
+            let (a, mut b) = (real(&mut rng), real(&mut rng));
+            // one second operand in six is a small whole number of either sign (whole powers of negative bases are real)
+            if rng.chance(1, 6) {
+                b = rng.below(19) as f64 - 9.0;
+            }
             let (sa, sb) = (f64_expr(a).unwrap(), f64_expr(b).unwrap());
             let s = match rng.below(10) {
                 0 => format!("{}+{}", sa, sb),
@@ -275,10 +279,14 @@ fn judge_real(s: &str, st: &mut Stats) -> Verdict {
     if !in_domain {
         return Verdict::Skip("outside-real-domain");
     }
-    // powers of negative bases and of zero are complex-valued or singular: outside the real domain
+    // powers of zero are singular and powers of negative bases complex-valued - outside the real
+    // domain - unless the exponent is a (moderate) whole number: (-2)^3 and (-2)^-3 are real
+    let whole = |e: f64| e.fract() == 0.0 && e.abs() <= 1000.0;
+    let outside = |b: f64, e: Option<f64>| b == 0.0 || (b < 0.0 && !e.map(whole).unwrap_or(false));
     let base_nonpos = match pf.ast.peel() {
-        Ast::Bin(Op::Pow, a, _) | Ast::Sup(a, _) => rf::eval(a, 0.0).v <= 0.0,
-        Ast::Call(Func::Pow, _, args) => rf::eval(&args[0], 0.0).v <= 0.0,
+        Ast::Bin(Op::Pow, a, b) => outside(rf::eval(a, 0.0).v, Some(rf::eval(b, 0.0).v)),
+        Ast::Sup(a, d) => outside(rf::eval(a, 0.0).v, Some(rf::parse_lit(d))),
+        Ast::Call(Func::Pow, _, args) => outside(rf::eval(&args[0], 0.0).v, Some(rf::eval(&args[1], 0.0).v)),
         Ast::Call(Func::Root, _, args) => rf::eval(&args[1], 0.0).v <= 0.0,
         _ => false,
     };
